@@ -156,6 +156,7 @@ type c16Svc struct {
 	sched    *verifsupport.Scheduler
 	source   *c16ConfigSource
 	relay    *c16Server
+	gate     *c16Gate
 	fallback bellatrix.ExecutionAddress
 }
 
@@ -197,11 +198,12 @@ func (g *c16Svc) settle(ctx context.Context) {
 // its initial fetch (the relay's URL, which the valid documents name, is only known once it listens).
 func c16NewSvc(ctx context.Context, sourceKind string, content func(*c16Svc) (string, bool)) *c16Svc {
 	viper.Set("timeout", 2*time.Second)
-	g := &c16Svc{accounts: &c16SvcAccounts{}, sched: verifsupport.NewScheduler(), source: c16NewConfigSource(sourceKind), relay: c16NewServer()}
+	g := &c16Svc{accounts: &c16SvcAccounts{}, sched: verifsupport.NewScheduler(), source: c16NewConfigSource(sourceKind), relay: c16NewServer(), gate: &c16Gate{}}
 	g.fallback[0] = 0xfa
 	ct := c16NowChainTime()
 	sk := c16RelayKey(1)
-	g.relay.Set("/eth/v1/builder/header/", c16Answer{Func: func(_ *http.Request) c16Answer { return c16BidBody("valid", ct, sk, sk) }})
+	g.relay.Set("/eth/v1/builder/header/", c16BidAnswer("valid", ct, sk, sk))
+	g.relay.Gate("/eth/v1/builder/header/", g.gate)
 	g.relay.Set("/eth/v1/builder/validators", c16Answer{Status: 200, Body: ``})
 	g.relay.Set("/eth/v1/builder/status", c16Answer{Status: 200, Body: ``})
 
@@ -264,6 +266,7 @@ func c16NewSvc(ctx context.Context, sourceKind string, content func(*c16Svc) (st
 }
 
 func (g *c16Svc) Close() {
+	g.gate.Release()
 	g.source.Close()
 	g.relay.Close()
 }
@@ -320,8 +323,8 @@ func (g *c16Svc) register(ctx context.Context) c16Res {
 
 // auction: AuctionBlock for a controlled validator, then what the beacon node asks the builder-bid
 // endpoint (the cached bid; an immediate auction for a validator Vouch does not control).
-func (g *c16Svc) auction(ctx context.Context) c16Res {
-	res, err := g.s.AuctionBlock(ctx, c16Slot, c16ParentHash, c16AccountPubkey(1))
+func (g *c16Svc) auction(ctx context.Context, slot phase0.Slot) c16Res {
+	res, err := g.s.AuctionBlock(ctx, slot, c16ParentHash, c16AccountPubkey(1))
 	time.Sleep(20 * time.Millisecond) // goroutines of the strategy still decoding an answer
 	if err != nil {
 		return c16Err(err.Error())
@@ -335,10 +338,10 @@ func (g *c16Svc) auction(ctx context.Context) c16Res {
 			return c16Err("provider cannot unblind")
 		}
 	}
-	if _, err := g.s.BuilderBid(ctx, c16Slot, c16ParentHash, c16AccountPubkey(1)); err != nil {
+	if _, err := g.s.BuilderBid(ctx, slot, c16ParentHash, c16AccountPubkey(1)); err != nil {
 		return c16Err("cached bid: " + err.Error())
 	}
-	if _, err := g.s.BuilderBid(ctx, c16Slot, c16ParentHash, c16OtherPubkey()); err != nil {
+	if _, err := g.s.BuilderBid(ctx, slot, c16ParentHash, c16OtherPubkey()); err != nil {
 		return c16Err("immediate bid: " + err.Error())
 	}
 	time.Sleep(20 * time.Millisecond)
@@ -348,33 +351,63 @@ func (g *c16Svc) auction(ctx context.Context) c16Res {
 	return c16OK(fmt.Sprintf("winner among %d", len(res.AllProviders)))
 }
 
-func c16RunExecService(ctx context.Context, sh map[string]string) c16Res {
-	// the relay address that the valid documents name; "good" is the scripted relay of this scenario
-	relayOf := func(g *c16Svc) string { return c16RelayAddress(sh["addr"], g.relay.URL()) }
-	content := func(g *c16Svc) (string, bool) {
-		if sh["doc"] == "missing" {
-			return "", true
-		}
-		return c16WholeDoc(sh["doc"], relayOf(g)), false
-	}
+// c16SvcInst is the block relay service as it lives in Vouch: built once, then the periodic fetch job
+// reads whatever the configuration source holds at that time, and lookups, registration rounds and
+// auctions use the configuration that is active.
+type c16SvcInst struct {
+	g     *c16Svc
+	first map[string]string
+}
 
-	var g *c16Svc
-	if sh["prior"] == "none" {
-		// the document is what the service finds when it starts
-		g = c16NewSvc(ctx, sh["source"], content)
-		defer g.Close()
-		g.settle(ctx)
-	} else {
-		g = c16NewSvc(ctx, sh["source"], func(g *c16Svc) (string, bool) { return c16ValidDoc(sh["prior"], g.relay.URL()), false })
-		defer g.Close()
-		g.settle(ctx)
+// content of the configuration source for a shape
+func (in *c16SvcInst) content(sh map[string]string) (string, bool) {
+	if sh["doc"] == "missing" {
+		return "", true
+	}
+	return c16WholeDocKeyed(sh["doc"], c16RelayAddress(sh["addr"], in.g.relay.URL()), sh["pk"]), false
+}
+
+func c16NewSvcInst(ctx context.Context, first map[string]string) c16Instance {
+	in := &c16SvcInst{first: first}
+	in.g = c16NewSvc(ctx, first["source"], func(g *c16Svc) (string, bool) {
+		in.g = g
+		if first["prior"] == "none" {
+			// the document of the first call is what the service finds when it starts
+			return in.content(first)
+		}
+		return c16ValidDoc(first["prior"], g.relay.URL()), false
+	})
+	in.g.settle(ctx)
+	return in
+}
+
+func (in *c16SvcInst) Gate() *c16Gate { return in.g.gate }
+func (in *c16SvcInst) Close()         { in.g.Close() }
+
+// Prepare: nothing; the configuration source is changed by the call itself (Invoke), step by step.
+func (in *c16SvcInst) Prepare(_ int, _ map[string]string) {}
+
+func (in *c16SvcInst) Invoke(ctx context.Context, k int, sh map[string]string) c16Res {
+	g := in.g
+	fetch := func() { g.sched.Fire(ctx, g.job("Fetch execution configuration")) }
+	switch {
+	case k == 1 && sh["prior"] == "none":
+		// found at start: initial fetch inside New, first registration round in the goroutine New started
+	case k == 1:
 		if r := g.lookup(ctx); r.Outcome != "ok" {
 			panic("c16 harness: the prior configuration is not in use: " + r.Detail)
 		}
+		g.source.Set(in.content(sh))
+		fetch()
+	default:
+		if sh["prior"] != "none" {
+			// a good configuration of that version becomes active first
+			g.source.Set(c16ValidDoc(sh["prior"], g.relay.URL()), false)
+			fetch()
+		}
 		// the source changes; the periodic job fetches it
-		c, missing := content(g)
-		g.source.Set(c, missing)
-		g.sched.Fire(ctx, g.job("Fetch execution configuration"))
+		g.source.Set(in.content(sh))
+		fetch()
 	}
 
 	worst := "ok"
@@ -390,7 +423,7 @@ func c16RunExecService(ctx context.Context, sh map[string]string) c16Res {
 	for _, u := range []struct {
 		name string
 		run  func(context.Context) c16Res
-	}{{"lookup", g.lookup}, {"register", g.register}, {"auction", g.auction}} {
+	}{{"lookup", g.lookup}, {"register", g.register}, {"auction", func(ctx context.Context) c16Res { return g.auction(ctx, c16CallSlot(k)) }}} {
 		r := u.run(ctx)
 		c16Used(ctx, u.name, r)
 		note(r)
@@ -400,5 +433,5 @@ func c16RunExecService(ctx context.Context, sh map[string]string) c16Res {
 }
 
 func init() {
-	c16Register("execservice", c16RunExecService)
+	c16RegisterInstance("execservice", c16NewSvcInst)
 }
